@@ -5,6 +5,31 @@ V = os.path.dirname(os.path.dirname(os.path.abspath(__file__)))
 props = [json.loads(l)['id'] for l in open(os.path.join(V, 'properties.jsonl'))]
 TECH = "SMT-based symbolic execution of go/ssa (bounded model checking; z3 decides every obligation)"
 claims = {
+
+ "C01": dict(
+  text="Symbolic execution of VerifyAddress/VerifyAddressKey/makeAddressDigestData and tryToGenerateAddress: for an arbitrary identity (IPv6/IPv4/invalid address, 15 known + unknown hash names, key-type and key of symbolic length up to 10000, any easing) nil is returned exactly when the address is an fd00::/8 IPv6, all fields present, hash known and the 16 address bytes equal the digest prefix of exactly 01|len(type)|be16(len(key))|type|key|[be64(easing)]; never panics. Every identity the generator returns verifies, lies in a requested prefix, outside ignored/internal ranges, with the easing recorded.",
+  note="Hash functions idealised (arbitrary digest bytes, functionally consistent); generator with <=2 acceptable and <=2 ignored symbolic prefixes, maxEasing <=1 quick / 2 thorough; storage reload text parsing (netip.ParseAddr/hex) and the three network entry points are outside this check (entry-point ordering is checked where the router/peering harnesses exist).",
+  tech=TECH),
+ "C02": dict(
+  text="Symbolic execution of NewFrameV1/initFrame/setData/Seal/Unseal/SignRaw/VerifyRaw/encryptFrame/decryptFrame/ParseFrameV1 and the state.Session sequence handlers on a frame of symbolic shape (any type byte, switch block 0..255, message 1..10000, appendix 0..10000): layout round-trips; Verify/Open receive exactly the key, ranges and bytes Sign/Seal used with TTL/flow zeroed; TTL, flow flags and appendix never enter a primitive; sealing is in place and leaves no plaintext; double seal refused; for a symbolic protected byte position changed to another value the receiver's primitive input differs in class, length or a byte.",
+  note="Ed25519 / ChaCha20-Poly1305 idealised (arbitrary outputs, arbitrary accept bit, every call recorded); key rollover excluded here (C15); quick uses the production margins (12,16), thorough all margins 0..100; counterexamples in model-using harnesses are re-validated symbolically, not natively.",
+  tech=TECH),
+ "C05": dict(
+  text="Symbolic execution of LinkBase.readFrame/readLengthAndData/writeFrame/writeData and LinkFrame.Seal/Unseal against a net.Conn model that delivers arbitrary bytes in arbitrary pieces: no panic for any length prefix; a frame reaches the caller only after AEAD open, sequence check and parse succeeded; exactly the announced number of bytes is consumed; with link encryption the single Write is header-as-nonce + AEAD output over exactly the frame bytes, nothing in clear.",
+  note="AEAD idealised; <=3 successful reads per frame quick / 5 thorough; reader loop (100 consecutive errors) and writer goroutine scheduling not encoded; duplicates/reordering reduce to C03's window (checked there).",
+  tech=TECH),
+ "C10": dict(
+  text="PARTIAL: the local obligations of C10 only. One Switch.handleFrame/forwardToLink/NextRotateSwitchBlock step on an arbitrary parsed frame (arbitrary bytes, switch block 0..B bytes, arbitrary receive label and link registry): every send has TTL reduced by exactly one and still >= 1 (hence at most TTL0-1 links by induction), own-source frames are dropped, a frame is forwarded or escalated at most once, and every byte other than TTL, flow flags and the switch block is unchanged. Mesh-level delivery (request reaches B and only B, reply reaches A) is NOT claimed.",
+  note="B=4 quick / 8 thorough; RouteFrame/ForwardByPeer path not yet covered; end-to-end delivery in converged meshes is a global property over up to 16 concurrent routers and is outside this technique's reach.",
+  tech=TECH),
+ "C13": dict(
+  text="nopanic symbolic execution (every implicit Go panic — index, slice bounds incl. the len..cap rule, nil dereference, type assertion, explicit panic — is a solver obligation) of the network-facing kernels: ParseFrame on arbitrary bytes 0..65535 followed by every accessor/mutator (SetAppendixData, Clone, Reply, ReplyTo, ReturnToPool); additionally the kernels of C01 (VerifyAddress), C05 (link reader), C10 (switch/rotate) run in nopanic mode in their own checks.",
+  note="Router ping/announce/traffic handlers with CBOR bodies are not yet covered by this check; panics inside cbor/dns/gVisor/runtime are outside.",
+  tech=TECH),
+ "C17": dict(
+  text="Symbolic execution of Clone/SetAppendixData/ReturnToPool/NewFrameV1 on frames of symbolic shape across all five pooled-buffer tiers: the clone equals the original at a symbolic byte index and in all parsed fields, shares no buffer, writes and appendix changes on the clone never reach the original or the clone's protected bytes, releasing one frame leaves another untouched.",
+  note="quick: production margins (12,16); thorough: all margins; recycling through an adversarial pool (stale recvLink) not yet covered.",
+  tech=TECH),
  "C03": dict(
   text="Bounded symbolic model checking of the real SequenceHandler.Check / TimeSequenceHandler.Check SSA: (induct) one step from an arbitrary state satisfying the window invariant, accepted set as uninterpreted predicate, all 2^32 sequence values and 2^64 bitmaps => delivery histories of any length; (bmc) K arbitrary sequence numbers from both real initial states, replayable natively; (time) accept iff strictly newer.",
   note="Bounds: bmc K=4 quick / 6 thorough; induction relies on the stated invariant I(highest,bitmap,A); sync.Mutex is a no-op (sequential atomic steps); ordering of Check after AEAD open is covered under C02/C05 harnesses; z3 trusted.",
